@@ -1,4 +1,232 @@
-import Nstd.Avl.Model
+import Nstd.Avl.LemmasRun4
+import Nstd.Avl.LemmasHeight
+/-
+  Property C01 — Map and MultiMap stay sorted, complete and logarithmically deep.
+
+  `run multi ops` is the state of the model (Model.lean) of `Map` (`multi = false`) or `MultiMap`
+  (`multi = true`) after the operation history `ops` (any list of plain / hinted inserts, removals
+  by key / iterator, removeFront/removeBack, clear, lookups; an operation the container rejects
+  leaves the state unchanged).  `abs s` is the in-order sequence of keys/values of the tree.
+  All theorems quantify over every history, i.e. over every reachable tree shape.
+-/
 namespace Nstd.Avl
-theorem placeholder : (run false []).size = 0 := by decide
+open Tree
+
+/-- the invariant of a container state: balanced search tree with correct stored fields -/
+structure Inv (s : St) : Prop where
+  /-- AVL balance, and every stored `height` / `slope` field is the real one -/
+  avl : Avl s.t
+  /-- search tree: keys ascend in in-order sequence (strictly for Map) -/
+  sorted : if s.multi then SortedW s.t.inorder else SortedS s.t.inorder
+  /-- the `_size` counter and the length of the prev/next list -/
+  size : s.size = s.t.size ∧ s.order.length = s.size
+
+theorem invT_run (multi : Bool) (ops : List Op) : InvT (run multi ops) ∧ (run multi ops).multi = multi := by
+  unfold run
+  suffices h : ∀ s, InvT s → InvT (ops.foldl step' s) ∧ (ops.foldl step' s).multi = s.multi from
+    h _ (invT_init multi)
+  induction ops with
+  | nil => intro s hs; exact ⟨hs, rfl⟩
+  | cons op ops ih =>
+    intro s hs
+    simp only [List.foldl_cons]
+    have : InvT (step' s op) ∧ (step' s op).multi = s.multi := by
+      unfold step'
+      cases h : step s op with
+      | none => exact ⟨hs, rfl⟩
+      | some r => exact step_invT s hs op r h
+    obtain ⟨h1, h2⟩ := ih _ this.1
+    exact ⟨h1, by rw [h2, this.2]⟩
+
+/-- **Invariant.**  After any history the tree is an AVL-balanced search tree whose stored
+    height/slope fields are correct, and the size counter is the number of entries. -/
+theorem inv_run (multi : Bool) (ops : List Op) : Inv (run multi ops) := by
+  obtain ⟨h, hm⟩ := invT_run multi ops
+  refine ⟨h.avl, ?_, h.size, h.olen⟩
+  cases multi with
+  | false => rw [hm]; exact h.sortedS hm
+  | true => rw [hm]; exact h.sortedW
+
+/-- Map iterates strictly ascending keys -/
+theorem sorted_run_map (ops : List Op) : (abs (run false ops)).Pairwise (fun a b => a.1 < b.1) := by
+  obtain ⟨h, hm⟩ := invT_run false ops
+  have := h.sortedS hm
+  unfold SortedS at this
+  simp only [abs, kv, List.pairwise_map]
+  exact this
+
+/-- MultiMap iterates ascending keys -/
+theorem sorted_run_multi (ops : List Op) : (abs (run true ops)).Pairwise (fun a b => a.1 ≤ b.1) := by
+  obtain ⟨h, _⟩ := invT_run true ops
+  have := h.sortedW
+  unfold SortedW at this
+  simp only [abs, kv, List.pairwise_map]
+  exact this
+
+/-- an op covered by the deterministic part of the specification: everything except the hinted
+    insert of a MultiMap (whose position inside a run of equal keys the code leaves to the tree shape) -/
+def Op.det (multi : Bool) : Op → Bool
+  | .insertAt _ _ _ => !multi
+  | _ => true
+
+/-- the specification run: a rejected op leaves the list unchanged -/
+def Spec.run (multi : Bool) (ops : List Op) : List Spec.KV :=
+  ops.foldl (fun xs op => match Spec.stepF multi xs op with | some r => r.1 | none => xs) []
+
+/-- **Refinement, one step from any reachable state** (contents, acceptance, and the results the
+    model reads off the tree: returned iterator of `remove`, `find`, `contains`, `count`). -/
+theorem refines_step (multi : Bool) (ops : List Op) (op : Op) (hd : op.det multi = true) :
+    match step (run multi ops) op with
+    | some r => ∃ xs' ret, Spec.stepF multi (abs (run multi ops)) op = some (xs', ret) ∧ abs r.1 = xs' ∧
+                  (op.retByTree = true → r.2.ret = ret)
+    | none => Spec.stepF multi (abs (run multi ops)) op = none := by
+  obtain ⟨h, hm⟩ := invT_run multi ops
+  have := step_spec (run multi ops) h op (by
+    intro p k v ⟨h1, h2⟩
+    rw [hm] at h1; subst h1; subst h2
+    simp [Op.det] at hd)
+  rw [hm] at this
+  exact this
+
+/-- **Refinement of the contents**: the in-order sequence of the tree after any history of
+    deterministic ops is the reference sorted list after the same history. -/
+theorem refines (multi : Bool) (ops : List Op) (hd : ∀ op ∈ ops, op.det multi = true) :
+    abs (run multi ops) = Spec.run multi ops := by
+  unfold run Spec.run
+  suffices h : ∀ s, InvT s → s.multi = multi →
+      abs (ops.foldl step' s) = ops.foldl (fun xs op => match Spec.stepF multi xs op with | some r => r.1 | none => xs) (abs s) from
+    h _ (invT_init multi) rfl
+  induction ops with
+  | nil => intro s _ _; rfl
+  | cons op ops ih =>
+    intro s hs hm
+    simp only [List.foldl_cons]
+    have hdo := hd op (by simp)
+    have hsp := step_spec s hs op (by
+      intro p k v ⟨h1, h2⟩
+      rw [hm] at h1; subst h1; subst h2
+      simp [Op.det] at hdo)
+    have hst : InvT (step' s op) ∧ (step' s op).multi = s.multi := by
+      unfold step'
+      cases h : step s op with
+      | none => exact ⟨hs, rfl⟩
+      | some r => exact step_invT s hs op r h
+    rw [ih (fun o ho => hd o (by simp [ho])) _ hst.1 (by rw [hst.2, hm])]
+    congr 1
+    unfold step'
+    rw [hm] at hsp
+    cases h : step s op with
+    | none => rw [h] at hsp; simp only at hsp; rw [hsp]
+    | some r =>
+      rw [h] at hsp
+      obtain ⟨xs', ret, h1, h2, _⟩ := hsp
+      rw [h1]; exact h2
+
+/-- **Lookup cost**: `find` makes at most two key comparisons per level of the tree. -/
+theorem find_cost (multi : Bool) (ops : List Op) (k : Int) :
+    (run multi ops).findCmps k ≤ 2 * (run multi ops).t.height := by
+  unfold St.findCmps
+  split
+  · exact findMCmps_le k _
+  · exact findCmps_le k _
+
+/-- **Height bound**: `height ≤ 1.4405·log2(n+2)`, written without reals
+    (`h ≤ 1.4405·log2(n+2)  ⇔  2^(h/1.4405) ≤ n+2  ⇔  2^(10000 h) ≤ (n+2)^14405`). -/
+theorem height_log (multi : Bool) (ops : List Op) :
+    2 ^ (10000 * (run multi ops).t.height) ≤ ((run multi ops).size + 2) ^ 14405 := by
+  obtain ⟨h, _⟩ := invT_run multi ops
+  rw [h.size]
+  exact Tree.height_log _ h.avl
+
+/-- `H = ⌊1.4405·log2(n+2)⌋`, characterised without reals -/
+def IsLogBound (n H : Nat) : Prop :=
+  2 ^ (10000 * H) ≤ (n + 2) ^ 14405 ∧ (n + 2) ^ 14405 < 2 ^ (10000 * (H + 1))
+
+/-- **The property's sentence**: finding any key among `n` entries needs at most
+    `2·⌊1.4405·log2(n+2)⌋` key comparisons — for every history and every key. -/
+theorem find_cost_log (multi : Bool) (ops : List Op) (k : Int) (H : Nat)
+    (hH : IsLogBound (run multi ops).size H) : (run multi ops).findCmps k ≤ 2 * H := by
+  have h1 := find_cost multi ops k
+  have h2 := height_log multi ops
+  have h3 : 2 ^ (10000 * (run multi ops).t.height) < 2 ^ (10000 * (H + 1)) := Nat.lt_of_le_of_lt h2 hH.2
+  have h4 := (Nat.pow_lt_pow_iff_right (by omega : 1 < 2)).mp h3
+  omega
+
+/-- the comparison count the `find` op of the model reports is the one bounded above -/
+theorem find_op_cmps (s : St) (k : Int) : ∃ r, step s (.find k) = some r ∧ r.2.cmps = s.findCmps k :=
+  ⟨_, rfl, rfl⟩
+
+/-- **MultiMap::count** (with fixes/avl/01+02) equals the number of entries with that key. -/
+theorem count_correct (ops : List Op) (k : Int) :
+    ∃ r, step (run true ops) (.count k) = some r ∧ r.2.ret = .num (Spec.count k (abs (run true ops))) ∧
+      r.1 = run true ops := by
+  have := refines_step true ops (.count k) rfl
+  have hm := (invT_run true ops).2
+  cases h : step (run true ops) (.count k) with
+  | none => rw [h] at this; simp [Spec.stepF] at this
+  | some r =>
+    rw [h] at this
+    obtain ⟨xs', ret, h1, h2, h3⟩ := this
+    simp only [Spec.stepF, if_true, Option.some.injEq, Prod.mk.injEq] at h1
+    refine ⟨r, rfl, ?_, ?_⟩
+    · rw [h3 rfl, ← h1.2]
+    · simp only [step, hm, if_true] at h
+      split at h <;> (simp only [Option.some.injEq] at h; rw [← h])
+
+/-- **MultiMap stability**: a plain insert puts the entry behind every entry with a key `≤ k`
+    (in particular behind all equal keys inserted before) and in front of every larger key. -/
+theorem multi_insert_stable (ops : List Op) (k v : Int) :
+    ∃ a b, abs (run true ops) = a ++ b ∧
+      abs (run true (ops ++ [.insert k v])) = a ++ (k, v) :: b ∧
+      (∀ e ∈ a, e.1 ≤ k) ∧ (∀ e ∈ b, k < e.1) := by
+  have hs := sorted_run_multi ops
+  have hr : abs (run true (ops ++ [.insert k v])) = Spec.insertMulti k v (abs (run true ops)) := by
+    have h := (invT_run true ops)
+    have := insertRoot_abs (run true ops) h.1 k v 0
+    rw [h.2] at this
+    simp only [if_true] at this
+    rw [← this]
+    simp [run, step', step]
+  rw [hr]
+  generalize abs (run true ops) = xs at hs
+  induction xs with
+  | nil => exact ⟨[], [], rfl, rfl, by simp, by simp⟩
+  | cons e es ih =>
+    rw [List.pairwise_cons] at hs
+    simp only [Spec.insertMulti]
+    by_cases h1 : k < e.1
+    · rw [if_pos h1]
+      refine ⟨[], e :: es, rfl, rfl, by simp, ?_⟩
+      intro x hx
+      rcases List.mem_cons.mp hx with hx | hx
+      · rw [hx]; exact h1
+      · have := hs.1 x hx; omega
+    · rw [if_neg h1]
+      obtain ⟨a, b, e1, e2, e3, e4⟩ := ih hs.2
+      refine ⟨e :: a, b, by rw [e1]; rfl, by rw [e2]; rfl, ?_, e4⟩
+      intro x hx
+      rcases List.mem_cons.mp hx with hx | hx
+      · rw [hx]; omega
+      · exact e3 x hx
+
+/-! ### non-vacuity: concrete reachable states -/
+
+/-- a 7-entry Map built through plain + hinted inserts and a two-child removal -/
+def sampleOps : List Op :=
+  [.insert 4 40, .insert 2 20, .insert 6 60, .insert 1 10, .insertAt 2 3 30, .insert 5 50,
+   .insertAt 6 7 70, .insert 8 80, .removeKey 4]
+
+example : abs (run false sampleOps) = [(1, 10), (2, 20), (3, 30), (5, 50), (6, 60), (7, 70), (8, 80)] := by
+  decide +kernel
+example : (run false sampleOps).t.height = 3 ∧ (run false sampleOps).size = 7 := by decide +kernel
+example : ∀ op ∈ sampleOps, op.det false = true := by decide
+/-- `⌊1.4405·log2(7+2)⌋ = 4` -/
+example : IsLogBound 7 4 := by
+  unfold IsLogBound
+  constructor <;> decide +kernel
+example : abs (run true [.insert 5 1, .insert 5 2, .insert 3 9, .insert 5 3]) = [(3, 9), (5, 1), (5, 2), (5, 3)] := by
+  decide +kernel
+example : ∃ r, step (run true [.insert 5 1, .insert 5 2, .insert 5 3]) (.count 5) = some r ∧ r.2.ret = .num 3 :=
+  ⟨_, rfl, by decide +kernel⟩
+
 end Nstd.Avl
